@@ -1040,6 +1040,93 @@ def history_probes(ctx, rng, c, terms=None, checks=None):
                       f'a history probe raised: {ex}', case={'srcs': c['srcs'], 'evs': c['evs'], 'spec': c['spec']})
 
 
+# ------------------------------------------------------------------ extension: angular_separation(psi_floor)
+
+ANGSEP_TOL = 1e-6     # 2 asin(sqrt(x)) is ill-conditioned near x = 1 (antipodal points): ~sqrt(eps) per ulp of x
+
+
+def angsep_rows(rng, n):
+    rows = []
+    for _ in range(n):
+        k = rng.random()
+        ra1 = rng.uniform(0, TWO_PI)
+        dec1 = math.asin(rng.uniform(-1, 1))
+        if k < 0.15:                      # same point / tiny offset
+            ra2, dec2 = ra1 + rng.choice([0.0, 1e-9, 1e-6]), dec1
+        elif k < 0.3:                     # across the RA seam / whole turns away
+            ra1 = rng.choice([0.0, 1e-4, TWO_PI - 1e-4])
+            ra2, dec2 = ra1 + rng.choice([-1e-3, 1e-3, TWO_PI, -TWO_PI, 3.0]), dec1 + rng.uniform(-0.01, 0.01)
+        elif k < 0.4:                     # poles
+            dec1 = rng.choice([HALF_PI, -HALF_PI])
+            ra2, dec2 = rng.uniform(0, TWO_PI), rng.choice([HALF_PI, -HALF_PI, 0.3])
+        elif k < 0.5:                     # nearly antipodal
+            ra2, dec2 = ra1 + PI + rng.choice([0.0, 1e-5, -1e-3]), -dec1
+        else:
+            ra2, dec2 = rng.uniform(-TWO_PI, 2 * TWO_PI), math.asin(rng.uniform(-1, 1))
+        dec2 = min(HALF_PI, max(-HALF_PI, dec2))
+        rows.append((ra1, dec1, ra2, dec2))
+    return rows
+
+
+def angsep_case(ctx, rows, floor, site='angular_separation'):
+    """real angular_separation(psi_floor=floor) vs the extracted model (M_SelectNum.angsep_floor_list on doubles)
+    vs an independent oracle (Vincenty formula, max with the floor)"""
+    from skyllh.core.utils.coords import angular_separation
+    case = {'angsep': {'rows': [list(r) for r in rows], 'floor': floor}}
+    ctx.count('angsep:' + ('none' if floor is None else 'nan' if floor != floor else 'floor'))
+    a = [np.array([r[i] for r in rows], dtype=np.float64) for i in range(4)]
+    keep = [x.copy() for x in a]
+    try:
+        got = angular_separation(a[0], a[1], a[2], a[3], psi_floor=floor)
+        impl = [float(x) for x in got]
+    except Exception as ex:  # noqa: BLE001
+        ctx.violation(site, 'raises-' + type(ex).__name__, 'angular_separation raises', case=case)
+        return
+    if any(x.tobytes() != k.tobytes() for x, k in zip(a, keep)):
+        ctx.violation(site, 'argument-modified', 'angular_separation modified an argument array', case=case)
+    plain = [float(x) for x in angular_separation(a[0], a[1], a[2], a[3])]
+    finite = floor is not None and floor == floor
+    for i, (r, v) in enumerate(zip(rows, impl)):
+        if any(x != x for x in r):
+            continue
+        want = vincenty(r[0], r[1], r[2], r[3])
+        if finite:
+            want = max(floor, want)
+            if v < floor or (v != floor and v != plain[i]):
+                ctx.violation(site, 'floor-not-applied', 'result is below psi_floor or neither the floor nor the separation',
+                              case=dict(case, row=i), impl=v, model=[floor, plain[i]],
+                              predicate='psi_floor <= result and result in {psi_floor, psi}')
+        if not (abs(v - want) <= ANGSEP_TOL):
+            ctx.violation(site, 'wrong-separation', 'differs from max(psi_floor, great-circle distance)',
+                          case=dict(case, row=i), impl=v, model=want, predicate='result = max(floor, distance)')
+    if _EXE['path']:
+        line = 'angsepf ' + ('none' if floor is None else ('nan' if floor != floor else hexf(floor))) + ' ' \
+               + ' '.join(hexf(x) for r in rows for x in r)
+        out = common.ocaml_run(_EXE['path'], [line])
+        mod = [float('nan') if w == 'nan' else float.fromhex(w) for w in out[0].split()] if out and out[0] != 'ERR' else None
+        ctx.corr_cases += 1
+        ok = mod is not None and len(mod) == len(impl) and all(
+            (x != x and y != y) or abs(x - y) <= ANGSEP_TOL for x, y in zip(impl, mod))
+        if not ok:
+            ctx.disagree(site, case, impl[:20], (mod or ['ERR'])[:20])
+
+
+def angsep_stream(ctx, rng):
+    floors = [None, 0.0, 0.01, 0.5, math.radians(5), 3.0, 3.5, -0.1]
+    for i in range(ctx.budget(40, 600)):
+        rows = angsep_rows(rng, rng.choice([1, 3, 10, 40]))
+        angsep_case(ctx, rows, floors[i % len(floors)])
+    # deterministic corpus: seam, poles, antipodal, floor above / below, and a malformed stream (NaN)
+    fixed = [(0.0, 0.0, 0.0, 0.0), (1e-4, 0.1, TWO_PI - 1e-4, 0.1), (0.3, HALF_PI, 2.0, HALF_PI), (0.3, HALF_PI, 2.0, -HALF_PI),
+             (1.0, 0.2, 1.0 + PI, -0.2), (7.0, 0.0, 0.4, 0.0), (-6.0, 0.0, 0.4, 0.0), (1.0, 0.5, 1.2, 0.4)]
+    for fl in (None, 0.0, 0.25, 1.0, 4.0):
+        angsep_case(ctx, fixed, fl)
+    nan = float('nan')
+    angsep_case(ctx, fixed + [(nan, 0.0, 1.0, 0.0), (1.0, nan, 1.0, 0.0)], 0.2)
+    angsep_case(ctx, fixed, nan)
+    angsep_case(ctx, [], 0.3)
+
+
 # ------------------------------------------------------------------ driver
 
 def one_case(ctx, c, terms, checks, with_model=True):
@@ -1193,6 +1280,7 @@ def run(ctx):
                     'sources': [list(s) for s in c['srcs'][:3]], 'events_ra_dec': [e[:2] for e in c['evs'][:3]]})
     for _ in range(ctx.budget(30, 600)):
         malformed_case(ctx, rng, terms, checks)
+    angsep_stream(ctx, rng)
     eval_and_compare(ctx, 'c05', terms, checks)
     # large inputs: predicates on the implementation only (the list model would be slow, not different)
     for i in range(ctx.budget(8, 120)):
@@ -1210,6 +1298,11 @@ def run(ctx):
 
 def replay(ctx, rp):
     c = rp.get('case') or {}
+    if c.get('angsep'):
+        setup_criteria(ctx)
+        ctx.case(c)
+        angsep_case(ctx, [tuple(r) for r in c['angsep']['rows']], c['angsep']['floor'])
+        return
     if not c.get('srcs'):
         ctx.notes.append('replay file has no concrete input (broken obligation): re-running the full check')
         return run(ctx)
@@ -1217,6 +1310,10 @@ def replay(ctx, rp):
     setup_criteria(ctx)
     srcs = [tuple(s) for s in c['srcs']]
     evs = [list(e) for e in c['evs']]
+    if c.get('angsep'):
+        ctx.case(c)
+        angsep_case(ctx, [tuple(r) for r in c['angsep']['rows']], c['angsep']['floor'])
+        return
     if 'inc' in c or c.get('malformed'):
         inc = [tuple(p) for p in c['inc']] if c.get('inc') is not None else None
         impl, _, _ = run_select(c['spec'], srcs, evs, inc=inc)
